@@ -8,6 +8,10 @@ import Bng.Model.TokenBucket
     new                                               => ok
     setqos a=<ip8hex> down=<bps> up=<bps> burst=<n> prio=<n>   => ok [e=<key>:<val>] [i=<key>:<val>]
     rmqos a=<ip8hex>                                  => ok [e-=<key>] [i-=<key>]
+    defpolicy <name> <down> <up> <burst> <prio>       => ok             PolicyManager.AddPolicy (defines or REdefines)
+    rmpolicy <name>                                   => ok             PolicyManager.RemovePolicy
+    setpolicy a=<ip8hex> <name>                       => ok [e=…] [i=…] | err policy_not_found:_<name>
+    count                                             => <n>            Manager.GetSubscriberCount
     raw <e|i> <keyhex> <valhex>                       => ok | err size
     clock <ns>                                        => ok
     pkt <e|i> <hexframe> <skblen>                     => <ret> [prio=N] [k=<keyhex>:<h|m>]
@@ -17,20 +21,41 @@ import Bng.Model.TokenBucket
   Monitors (all fed from the implementation's observations only):
     over-admit, starved, zero-rate   per map entry the program actually used (`k=…:h`), with the rate/burst
                                      found in the bytes the control plane (or `raw`) put there;
-    policy                           a packet to/from an address with a policy in force must hit exactly the entry
-                                     SetSubscriberQoS wrote for it, and that entry must carry the requested rate.
+    policy                           the SPEC STATE is built from the control-plane operations alone: the policy table
+                                     (defpolicy/rmpolicy) and, per address, the LAST policy applied (setqos values, or the
+                                     definition the name had when setpolicy was called); after every control-plane call
+                                     and at every packet to/from such an address the entry the program uses (bytes the
+                                     implementation reported) must carry exactly that rate, burst and priority, in both
+                                     directions; a removed policy must no longer be enforced.
 -/
 namespace Bng.Drv.TokenBucketDrv
 open Bng Bng.Drv Bng.TokenBucket
 
+/-- a policy as the control plane states it: down, up, burst (0 = default), priority -/
+structure Pol where
+  down : Nat
+  up : Nat
+  burst : Nat
+  prio : Nat
+deriving DecidableEq, Repr
+
 structure St where
   started : Bool := false
   maps : Maps := {}
+  subs : AMap Bytes QoS := []
+  pols : PolicyTable := []
   clock : UInt64 := 0
-  /-- monitors per (direction, key bytes) -/
+  /-- bucket monitors per (direction, key bytes) -/
   mons : AMap (Bool × Bytes) Mon := []
-  /-- policies in force per (direction, wire address): the key SetSubscriberQoS wrote (none = nothing seen written) -/
-  pol : AMap (Bool × Bytes) (Option Bytes) := []
+  -- policy monitor, spec side (from the control-plane operations only)
+  sPols : AMap String Pol := []
+  /-- last policy applied per wire address -/
+  sApplied : AMap Bytes Pol := []
+  -- policy monitor, implementation side (from the reported bytes only)
+  /-- value bytes last reported per (direction, key) -/
+  iEnt : AMap (Bool × Bytes) Bytes := []
+  /-- who wrote the entry: `some ip` = the control plane for that address, `none` = a raw write -/
+  iOrigin : AMap (Bool × Bytes) (Option Bytes) := []
 
 def dirOf (s : String) : Option Dir :=
   if s == "e" then some .egress else if s == "i" then some .ingress else none
@@ -93,24 +118,81 @@ def implKey (toks : List String) : Option (Bytes × Bool) :=
       | _ => none
     else none
 
+/-- "1 second of traffic, minimum 64KB, capped at 10MB" -/
+def defaultBurstSpec (bps : Nat) : Nat := min (max (bps / 8) 65536) (10 * 1024 * 1024)
+
+/-- what the entry of direction `d` must carry under policy `p`: rate, burst, priority.
+    (The upload direction has no configurable burst in the manager's API: it always gets the default.) -/
+def expected (d : Dir) (p : Pol) : Nat × Nat × Nat :=
+  match d with
+  | .egress => (p.down, if p.burst ≠ 0 then p.burst else defaultBurstSpec p.down, p.prio)
+  | .ingress => (p.up, defaultBurstSpec p.up, p.prio)
+
+/-- compare the configuration carried by reported entry `(d, k)` with the policy applied to `ip` -/
+def checkEntry (st : St) (d : Dir) (ip k : Bytes) (p : Pol) (what : String) : List (String × String × String) :=
+  match (AMap.lookup st.iEnt (isE d, k)).bind Bucket.decode with
+  | none => [("policy", "none", s!"{what}: no {dirTag d} entry {hex k} for {hex ip}")]
+  | some b =>
+    let want := expected d p
+    let got := (b.rate.toNat, b.burst.toNat, b.prio.toNat)
+    if want = got then [] else
+      [("policy", "none",
+        s!"{what}: {dirTag d} entry {hex k} of {hex ip} carries rate={got.1} burst={got.2.1} prio={got.2.2}, last applied policy says rate={want.1} burst={want.2.1} prio={want.2.2}")]
+
+/-- the key under which the control plane's entry for `ip` lives (as reported by the implementation) -/
+def keyOfIp (st : St) (d : Dir) (ip : Bytes) : Option Bytes :=
+  st.iOrigin.findSome? fun (dk, o) => if dk.1 = isE d ∧ o = some ip then some dk.2 else none
+
+/-- apply the implementation's `e=k:v i=k:v e-=k i-=k` report of a control-plane call made for `ip` -/
+def applyReport (st : St) (ip : Bytes) (itoks : List String) : St :=
+  itoks.foldl (fun s t =>
+    let dir? : Option Bool := if t.startsWith "e" then some true else if t.startsWith "i" then some false else none
+    match dir? with
+    | none => s
+    | some e =>
+      if (dropStr t 1).startsWith "-=" then
+        match parseHexBytes (dropStr t 3) with
+        | some k => { s with iEnt := AMap.erase s.iEnt (e, k), iOrigin := AMap.erase s.iOrigin (e, k),
+                             mons := AMap.erase s.mons (e, k) }
+        | none => s
+      else if (dropStr t 1).startsWith "=" then
+        match (dropStr t 2).splitOn ":" with
+        | [kk, vv] => match parseHexBytes kk, parseHexBytes vv with
+          | some kb, some vb =>
+            { s with iEnt := AMap.insert s.iEnt (e, kb) vb, iOrigin := AMap.insert s.iOrigin (e, kb) (some ip),
+                     mons := match monOfBytes vb with
+                       | some mon => AMap.insert s.mons (e, kb) mon
+                       | none => AMap.erase s.mons (e, kb) }
+          | _, _ => s
+        | _ => s
+      else s) st
+
+/-- `policy` verdicts right after a control-plane call that applied `p` to `ip` -/
+def checkApplied (st : St) (ip : Bytes) (p : Pol) (what : String) : List (String × String × String) :=
+  [Dir.egress, Dir.ingress].flatMap fun d =>
+    match keyOfIp st d ip with
+    | none => [("policy", "none", s!"{what}: no {dirTag d} entry was written for {hex ip}")]
+    | some k => checkEntry st d ip k p what
+
 /-- monitor updates for one observed packet -/
 def observePkt (st : St) (d : Dir) (frame : Bytes) (len : Nat) (ik : Option (Bytes × Bool)) (ret : Nat) :
     St × List (String × String × String) :=
-  -- policy: the entry hit must be the one the control plane wrote for this subscriber
+  -- policy: the entry the program uses must carry the last policy applied to this subscriber
   let polV : List (String × String × String) :=
     match subscriberAddr d frame with
     | none => []
     | some ip =>
-      match AMap.lookup st.pol (isE d, ip) with
-      | none => []
-      | some none => [("policy", "none", s!"SetSubscriberQoS({hex ip}) wrote no {dirTag d} entry")]
-      | some (some wk) =>
-        match ik with
-        | some (k, true) => if k = wk then [] else
-            [("policy", "none", s!"packet of {hex ip} judged by entry {hex k}, policy was written under {hex wk}")]
-        | some (k, false) =>
-            [("policy", "none", s!"packet of {hex ip}: program looked up {hex k} (miss), policy was written under {hex wk}: not enforced")]
-        | none => [("policy", "none", s!"packet of {hex ip}: no lookup, policy written under {hex wk}")]
+      match AMap.lookup st.sApplied ip, ik with
+      | some p, some (k, true) => checkEntry st d ip k p "packet"
+      | some _, some (k, false) =>
+          [("policy", "none", s!"packet of {hex ip}: the program looked up {hex k} and found nothing: the applied policy is not enforced")]
+      | some _, none => [("policy", "none", s!"packet of {hex ip}: no lookup although a policy is applied")]
+      | none, some (k, true) =>
+        match AMap.lookup st.iOrigin (isE d, k) with
+        | some (some owner) =>
+          [("policy", "none", s!"packet of {hex ip} (no policy applied) is judged by the control-plane entry {hex k} written for {hex owner}")]
+        | _ => []
+      | none, _ => []
   -- bucket monitors: the entry the program used
   match ik with
   | some (k, true) =>
@@ -120,6 +202,28 @@ def observePkt (st : St) (d : Dir) (frame : Bytes) (len : Nat) (ik : Option (Byt
       ({ st with mons := AMap.insert st.mons (isE d, k) mon' }, polV ++ vs)
     | none => (st, polV)
   | _ => (st, polV)
+
+def ctlOf (st : St) : Ctl := { maps := st.maps, subs := st.subs, pols := st.pols }
+def withCtl (st : St) (c : Ctl) : St := { st with maps := c.maps, subs := c.subs, pols := c.pols }
+
+/-- observation of a call that rewrote the entries of `ip`: what changed, as the harness reports it -/
+def diffObs (old new : Maps) (ip : Bytes) : String :=
+  let k := keyBytes ip
+  let diff := fun (tag : String) (o n : AMap Bytes Bytes) =>
+    match AMap.lookup n k with
+    | some v => if AMap.lookup o k = some v then "" else s!" {tag}={hex k}:{hex v}"
+    | none => ""
+  "ok" ++ diff "e" old.egress new.egress ++ diff "i" old.ingress new.ingress
+
+/-- common tail of setqos / setpolicy: spec state, report, verdicts -/
+def afterApply (st : St) (ip : Bytes) (p : Pol) (itoks : List String) (what : String) :
+    St × List (String × String × String) :=
+  let ok := itoks.head? == some "ok"
+  let st1 := applyReport st ip itoks
+  if ok then
+    let st2 := { st1 with sApplied := AMap.insert st1.sApplied ip p }
+    (st2, checkApplied st2 ip p what)
+  else (st1, [("policy", "none", s!"{what} for {hex ip} failed: {" ".intercalate itoks}")])
 
 def step (st : St) (toks : List String) (impl : String) : St × LineResult :=
   let itoks := splitTokens impl
@@ -131,79 +235,91 @@ def step (st : St) (toks : List String) (impl : String) : St × LineResult :=
           (argOf args "up").bind String.toNat?, (argOf args "burst").bind String.toNat?,
           (argOf args "prio").bind String.toNat? with
     | some ip, some down, some up, some burst, some prio =>
-      if ip.length ≠ 4 ∨ args.length ≠ 5 then (st, { modelObs := "badop" }) else
+      if ip.length ≠ 4 ∨ args.length ≠ 5 ∨ down ≥ 2 ^ 64 ∨ up ≥ 2 ^ 64 ∨ burst ≥ 2 ^ 32 ∨ prio ≥ 256 then
+        (st, { modelObs := "badop" }) else
       let q : QoS := { ip := ip, down := UInt64.ofNat down, up := UInt64.ofNat up,
                        burst := UInt32.ofNat burst, prio := UInt8.ofNat prio }
-      let m' := setSubscriberQoS st.maps q
-      let k := keyBytes ip
-      let diff := fun (tag : String) (old new : AMap Bytes Bytes) =>
-        match AMap.lookup new k with
-        | some v => if AMap.lookup old k = some v then "" else s!" {tag}={hex k}:{hex v}"
-        | none => ""
-      let obs := "ok" ++ diff "e" st.maps.egress m'.egress ++ diff "i" st.maps.ingress m'.ingress
-      -- monitors from what the IMPLEMENTATION wrote
-      let written := fun (tag : String) => itoks.findSome? fun t =>
-        if t.startsWith (tag ++ "=") then
-          match (dropStr t 2).splitOn ":" with
-          | [kk, vv] => match parseHexBytes kk, parseHexBytes vv with
-            | some kb, some vb => some (kb, vb)
-            | _, _ => none
-          | _ => none
-        else none
-      let upd := fun (acc : St × List (String × String × String)) (d : Dir) (want : Nat) =>
-        let (s, vs) := acc
-        match written (dirTag d) with
-        | some (kb, vb) =>
-          let mons := match monOfBytes vb with
-            | some mon => AMap.insert s.mons (isE d, kb) mon
-            | none => AMap.erase s.mons (isE d, kb)
-          let bad := match Bucket.decode vb with
-            | some b => if b.rate.toNat = want ∧ b.prio.toNat = prio % 256 then [] else
-                [("policy", "none", s!"SetSubscriberQoS({hex ip}) asked {dirTag d} rate {want} prio {prio}, wrote rate {b.rate.toNat} prio {b.prio.toNat}")]
-            | none => [("policy", "none", s!"SetSubscriberQoS({hex ip}) wrote a {vb.length}-byte {dirTag d} value")]
-          ({ s with mons := mons, pol := AMap.insert s.pol (isE d, ip) (some kb) }, vs ++ bad)
-        | none =>
-          -- nothing changed in the kernel map: either identical bytes were rewritten (policy stays) or nothing was written
-          let keep := match AMap.lookup s.pol (isE d, ip) with
-            | some (some kb) => some kb
-            | _ => none
-          ({ s with pol := AMap.insert s.pol (isE d, ip) keep }, vs)
-      let ok := itoks.head? == some "ok"
-      let (s1, vs) := if ok then upd (upd ({ st with maps := m' }, []) .egress (down % 2 ^ 64)) .ingress (up % 2 ^ 64)
-                      else ({ st with maps := m' }, [])
-      (s1, { modelObs := obs, viols := vs })
+      let c' := (ctlOf st).setQoS q
+      let (st1, vs) := afterApply (withCtl st c') ip { down := down, up := up, burst := burst, prio := prio } itoks "SetSubscriberQoS"
+      (st1, { modelObs := diffObs st.maps c'.maps ip, viols := vs })
     | _, _, _, _, _ => (st, { modelObs := "badop" })
+  | ["defpolicy", name, down, up, burst, prio] =>
+    if !st.started then (st, { modelObs := "badop" }) else
+    match down.toNat?, up.toNat?, burst.toNat?, prio.toNat? with
+    | some down, some up, some burst, some prio =>
+      if down ≥ 2 ^ 64 ∨ up ≥ 2 ^ 64 ∨ burst ≥ 2 ^ 32 ∨ prio ≥ 256 then (st, { modelObs := "badop" }) else
+      let p : Policy := { name := name, down := UInt64.ofNat down, up := UInt64.ofNat up,
+                          burst := UInt32.ofNat burst, prio := UInt8.ofNat prio }
+      let st1 := { st with pols := addPolicy st.pols p }
+      let st2 := if impl == "ok" then
+          { st1 with sPols := AMap.insert st1.sPols name { down := down, up := up, burst := burst, prio := prio } }
+        else st1
+      (st2, { modelObs := "ok",
+              viols := if impl == "ok" then [] else [("policy", "none", s!"AddPolicy {name} failed: {impl}")] })
+    | _, _, _, _ => (st, { modelObs := "badop" })
+  | ["rmpolicy", name] =>
+    if !st.started then (st, { modelObs := "badop" }) else
+    ({ st with pols := removePolicy st.pols name,
+               sPols := if impl == "ok" then AMap.erase st.sPols name else st.sPols }, { modelObs := "ok" })
+  | ["setpolicy", a, name] =>
+    if !st.started then (st, { modelObs := "badop" }) else
+    match (kvTok a).bind fun (k, v) => if k == "a" then parseHexBytes v else none with
+    | some ip =>
+      if ip.length ≠ 4 then (st, { modelObs := "badop" }) else
+      let (c', found) := (ctlOf st).setPolicy ip name
+      let obs := if found then diffObs st.maps c'.maps ip else s!"err policy_not_found:_{name}"
+      let st0 := withCtl st c'
+      -- the monitor's own view: the definition the name has NOW in the control-plane table
+      match AMap.lookup st.sPols name with
+      | some p =>
+        let (st1, vs) := afterApply st0 ip p itoks s!"SetSubscriberPolicy({name})"
+        (st1, { modelObs := obs, viols := vs })
+      | none =>
+        let st1 := applyReport st0 ip itoks
+        (st1, { modelObs := obs,
+                viols := if itoks.head? == some "ok" then
+                  [("policy", "none", s!"SetSubscriberPolicy({name}) for {hex ip} succeeded although no such policy is defined")] else [] })
+    | none => (st, { modelObs := "badop" })
   | ["rmqos", a] =>
     if !st.started then (st, { modelObs := "badop" }) else
     match (kvTok a).bind fun (k, v) => if k == "a" then parseHexBytes v else none with
     | some ip =>
       if ip.length ≠ 4 then (st, { modelObs := "badop" }) else
       let k := keyBytes ip
-      let m' := removeSubscriberQoS st.maps ip
+      let c' := (ctlOf st).remove ip
       let gone := fun (tag : String) (old : AMap Bytes Bytes) =>
         if (AMap.lookup old k).isSome then s!" {tag}-={hex k}" else ""
       let obs := "ok" ++ gone "e" st.maps.egress ++ gone "i" st.maps.ingress
-      -- monitors: forget the entries the implementation reports as deleted, and the policy
-      let dels := itoks.filterMap fun t =>
-        if t.startsWith "e-=" then (parseHexBytes (dropStr t 3)).map fun kb => (true, kb)
-        else if t.startsWith "i-=" then (parseHexBytes (dropStr t 3)).map fun kb => (false, kb)
-        else none
-      let mons := dels.foldl (fun acc dk => AMap.erase acc dk) st.mons
-      let pol := AMap.erase (AMap.erase st.pol (true, ip)) (false, ip)
-      ({ st with maps := m', mons := mons, pol := pol }, { modelObs := obs })
+      let st1 := applyReport (withCtl st c') ip itoks
+      let st2 := { st1 with sApplied := AMap.erase st1.sApplied ip }
+      -- a removed policy must leave no control-plane entry behind
+      let left := [Dir.egress, Dir.ingress].filterMap fun d => (keyOfIp st2 d ip).map fun kk => s!"{dirTag d}:{hex kk}"
+      (st2, { modelObs := obs,
+              viols := if itoks.head? == some "ok" ∧ !left.isEmpty then
+                [("policy", "none", s!"RemoveSubscriberQoS({hex ip}) left entries {" ".intercalate left}")] else [] })
     | none => (st, { modelObs := "badop" })
+  | ["count"] =>
+    if !st.started then (st, { modelObs := "badop" }) else
+    (st, { modelObs := s!"{(ctlOf st).count}" })
   | ["raw", d, k, v] =>
     if !st.started then (st, { modelObs := "badop" }) else
     match dirOf d, parseHexBytes k, parseHexBytes v with
     | some d, some kb, some vb =>
       if kb.length ≠ 4 ∨ vb.length ≠ 32 then (st, { modelObs := "err size" }) else
       let m' := st.maps.set d (AMap.insert (st.maps.get d) kb vb)
-      let mons := if impl == "ok" then
-          match monOfBytes vb with
-          | some mon => AMap.insert st.mons (isE d, kb) mon
-          | none => st.mons
-        else st.mons
-      ({ st with maps := m', mons := mons }, { modelObs := "ok" })
+      let st1 := { st with maps := m' }
+      let st2 := if impl == "ok" then
+          -- a raw write has no control-plane meaning: whatever policy statement held for the owner of this entry is void
+          let owner := (AMap.lookup st1.iOrigin (isE d, kb)).bind id
+          { st1 with
+            mons := match monOfBytes vb with
+              | some mon => AMap.insert st1.mons (isE d, kb) mon
+              | none => st1.mons,
+            iEnt := AMap.insert st1.iEnt (isE d, kb) vb,
+            iOrigin := AMap.insert st1.iOrigin (isE d, kb) none,
+            sApplied := match owner with | some ip => AMap.erase st1.sApplied ip | none => st1.sApplied }
+        else st1
+      (st2, { modelObs := "ok" })
     | _, _, _ => (st, { modelObs := "badop" })
   | ["clock", n] =>
     if !st.started then (st, { modelObs := "badop" }) else
